@@ -379,9 +379,13 @@ def run(ctx):
             for s in (sers if level <= 1 else [sers[i % 3]]):
                 units.append((ctx.quick, s, [tuple(o) for o in h]))
         nxt = []
+        level_succ = []
         for st, succ in ctx.pmap(expand_task, units):
             total.merge(st)
-            for key, h in succ:
+            level_succ.extend(succ)
+        level_succ.sort(key=lambda t: (t[0], len(t[1]), repr(t[1])))      # deterministic representative per state
+        for _one in [0]:
+            for key, h in level_succ:
                 if key not in seen:
                     seen[key] = h
                     if level < depth:
